@@ -7,7 +7,7 @@ from vlib.workers import ALL, WorkerDied, WorkerSet
 
 PROPERTY = "C13"
 LEVEL = "exploration"
-RULE = ("Entry points: extract(item), extract_outermost, extract_child, fill_context and the running-stack entry points extract_since(frame), extract_until(frame, limit=int), extract_until(frame, limit=frame) and extract(StackSlice(...)), each taking its own option pair. "
+RULE = ("(Invocation kind gcmx: fill_context of an EXITING generator-based manager that has a generator hook - the contextlib glue then makes a helper extraction of its own, whose hooks are still hooks of the enclosing call.) Entry points: extract(item), extract_outermost, extract_child, fill_context and the running-stack entry points extract_since(frame), extract_until(frame, limit=int), extract_until(frame, limit=frame) and extract(StackSlice(...)), each taking its own option pair. "
         "Well-nested call trees (depth <= 4, fan-out <= 2) whose nodes are extract / extract_outermost / extract_child / "
         "fill_context invocations with their own (with_contexts, recurse_child_tasks) pair, children invoked from inside the "
         "hook the invocation triggers, optionally raising a BaseException or an ordinary exception through the invocation; "
